@@ -909,24 +909,28 @@ class _StubDoc:
         raise KeyError(objid)
 
 
-def parse_stream_at(buf: bytes, pos: int):
+def parse_stream_at(buf: bytes, pos: int, fallback: bool = False, want_end: bool = False):
     """Run the real PDFParser on `buf` from `pos` (start of `<< ... >> stream`); returns (dict, rawdata)
     of the first stream object the `stream` branch of do_keyword pushes; PSEOF when it pushes none."""
     from pdfminer.pdfparser import PDFParser
     from pdfminer.pdftypes import PDFStream
     from pdfminer.psexceptions import PSEOF
     captured = []
+    ends: List[int] = []
 
     class Capture(PDFParser):
         def push(self, *objs):
             for o in objs:
                 if isinstance(o, tuple) and len(o) == 2 and isinstance(o[1], PDFStream):
                     captured.append(o[1])
+                    # do_keyword has just done `self.seek(pos + objlen)`: where parsing resumes
+                    ends.append(self.bufpos + self.charpos)
             PDFParser.push(self, *objs)
 
     p = Capture(io.BytesIO(buf))
     p.set_document(_StubDoc())  # type: ignore[arg-type]
     p.seek(pos)
+    p.fallback = fallback
     try:
         p.nextobject()
     except PSEOF:
@@ -938,7 +942,90 @@ def parse_stream_at(buf: bytes, pos: int):
             raise
     if not captured:
         raise PSEOF("no stream object")
+    if want_end:
+        return captured[0].attrs, captured[0].get_rawdata(), ends[0]
     return captured[0].attrs, captured[0].get_rawdata()
+
+
+ENDSTREAM = b"endstream"
+
+
+def streamx_impl(buf: bytes, pos: int, fallback: bool) -> str:
+    try:
+        _, raw, end = parse_stream_at(buf, pos, fallback=fallback, want_end=True)
+        return "B " + hx(raw) + " " + str(end)
+    except Exception as e:  # noqa: BLE001
+        return "E " + type(e).__name__
+
+
+def check_streamx(ctx, batch, inp, from_replay: bool = False) -> None:
+    """The whole `stream` branch: (tie) `streamRead` == do_keyword for fallback / non-fallback, any Length
+    (negative, huge, missing) -- rawdata and the position the parser resumes at; (prop) on inputs of the
+    domain of `stream_scan_delim` / `stream_read_exact` the implementation itself must return the payload
+    and resume exactly at `endstream`."""
+    head, dic, eol, payload, tail, post = (unhx(inp[k]) for k in ("head", "dic", "eol", "payload", "tail", "post"))
+    fb = bool(inp["fallback"])
+    buf = head + dic + b"stream" + eol + payload + tail + post
+    if inp.get("cut") is not None:
+        buf = buf[:inp["cut"]]
+    spos = len(head) + len(dic)
+    got = streamx_impl(buf, len(head), fb)
+    ln = inp["length"]
+    batch.add(f"streamx {1 if fb else 0} {spos} {'none' if ln is None else ln} {hx(buf)}", got,
+              {"op": "streamx", "input": inp})
+    kind = got[2:] if got.startswith("E") else "ok"
+    ctx.case(("streamx", buf, fb, ln), True, sample={"op": "streamx", "fallback": fb, "length": ln, "buf": hx(buf)[:80]},
+             branch="streamx:%s:%s:%s" % ("fallback" if fb else "length",
+                                          "nolen" if ln is None else ("neg" if ln < 0 else "int"), kind))
+    if not inp.get("domain"):
+        return
+    # property on the implementation.  domain: tail ends the data, `endstream` follows, a line end follows it
+    body = payload + tail
+    where = len(head) + len(dic) + 6 + len(eol) + len(body)
+    if fb:
+        exp = "B " + hx(body) + " " + str(where)          # data = everything up to the marker
+    else:
+        exp = "B " + hx(payload) + " " + str(where)       # data = Length bytes, parser resumes at the marker
+    ctx.branch("streamx:domain:" + ("fallback" if fb else "length"))
+    if got != exp:
+        ctx.fail(C.Failure("stream branch: rawdata / resume position wrong (%s mode)" % ("fallback" if fb else "Length"),
+                           {"kind": "streamx", **inp}, exp[:400], got[:400],
+                           {"stage": "delimit", "mode": "fallback" if fb else "length"}))
+
+
+def gen_streamx(rng, domain: bool):
+    payload = gen_payload(rng, 60)
+    if domain or rng.random() < 0.5:
+        # keep the marker out of the scanned part (domain of the theorems)
+        payload_scan_free = True
+    else:
+        payload_scan_free = False
+    fb = rng.random() < 0.5
+    eol = rng.choice([b"\n", b"\r\n"]) if domain else rng.choice([b"\n", b"\r\n", b"\r", b" \n", b"\r\r", b"\n\n"])
+    if eol == b"\r" and payload[:1] == b"\n":
+        eol = b"\r\n"
+    tail = rng.choice([b"\n", b"\r\n", b"", b"\r", b" ", b"\n\n", b"ends", b"\rendstrea\n"])
+    post = rng.choice([b"\nendobj\n", b"\r\nendobj\r\n", b" endobj\n", b"\n", b"\rX"])
+    head = b"5 0 obj\n"
+    if domain:
+        ln: Any = len(payload) if not fb else rng.choice([len(payload), 0, 3, None, -1, 10 ** 6])
+        if fb:
+            # in fallback mode everything before the marker is scanned: it must not contain the marker
+            while ENDSTREAM in payload + tail:
+                i = (payload + tail).find(ENDSTREAM)
+                payload = (payload[:i] + b"e-" + payload[i + 2:]) if i + 2 <= len(payload) else payload[:i]
+        post = ENDSTREAM + post
+    else:
+        ln = rng.choice([len(payload), 0, None, -1, -rng.randint(2, 50), len(payload) + rng.randint(1, 30),
+                         max(0, len(payload) - rng.randint(1, 5)), 10 ** 6, 2 ** 70])
+        post = rng.choice([ENDSTREAM + post, ENDSTREAM + post, b"endstrea", b"", b"\n", ENDSTREAM, b"xendstream endstream\n"])
+    dic = (b"<<>>" if ln is None else b"<</Length %d>>" % ln) + rng.choice([b"\n", b" ", b"", b"\r\n"])
+    inp = {"head": hx(head), "dic": hx(dic), "eol": hx(eol), "payload": hx(payload), "tail": hx(tail), "post": hx(post),
+           "fallback": fb, "length": ln, "cut": None, "domain": domain}
+    if not domain and rng.random() < 0.12:
+        total = len(head) + len(dic) + 6 + len(eol) + len(payload) + len(tail) + len(post)
+        inp["cut"] = rng.randint(len(head) + len(dic) + 6, total)
+    return inp
 
 
 def run_chains(ctx) -> None:
@@ -1081,6 +1168,10 @@ def run_chains(ctx) -> None:
         batch.add(f"stream {spos} {ln} {hx(buf)}", got, {"op": "stream-wild"})
         ctx.case(("streamwild", buf, ln), True, branch="streamwild:" + (got[2:] if got.startswith("E") else "ok"))
     batch.flush()
+    # round 6: the whole stream branch (fallback mode, Length clamp, endstream scan, resume position)
+    for i in range(ctx.n(700, 9000)):
+        check_streamx(ctx, batch, gen_streamx(rng, domain=(i % 3 == 0)))
+    batch.flush()
 
 
 # ----------------------------------------------------------------------------- corpus / replay / run
@@ -1095,6 +1186,8 @@ def replay(ctx: C.Ctx, doc, from_corpus: bool = False) -> None:
         stages = [Stage.from_json(j) for j in inp["stages"]]
         x = unhx(inp["payload"])
         check_chain(ctx, batch, stages, x, encode_chain(stages, x), inp["layout"], from_replay=True)
+    elif inp.get("kind") == "streamx":
+        check_streamx(ctx, batch, inp, from_replay=True)
     ctx.branch("corpus" if from_corpus else "replay")
     batch.flush()
 
